@@ -113,7 +113,14 @@ func isError(t types.Type) bool { return t.String() == "error" }
 func lookupFunc(w *World, home *types.Package, imports []Import, name string) *types.Func {
 	parts := strings.Split(name, ".")
 	if len(parts) == 1 {
-		f, _ := home.Scope().Lookup(name).(*types.Func)
+		obj := home.Scope().Lookup(name)
+		if v, ok := obj.(*types.Var); ok {
+			// a package-level variable of function type is callable like a function
+			if sg, ok := v.Type().(*types.Signature); ok {
+				return types.NewFunc(v.Pos(), home, name, sg)
+			}
+		}
+		f, _ := obj.(*types.Func)
 		return f
 	}
 	if len(parts) != 2 {
